@@ -14,7 +14,7 @@ ASSUMPTIONS = [
     'reduce_iops: after the fix 7a327a8 the reduced-I/O reader is dropped whenever the file grid differs from the window, so a windowed conversion always uses segyio; '
     'the full-grid reduced-I/O reader is the MinimalInlineReader contract (C01)',
     'io_thread_func is verified for a SYMBOLIC inline block extent (outer loop as independent iterations with if-converted arms) and, as a cross-check, unrolled for b0 = 4, 8 (thorough: 16); seismic_file_producer uses it by contract for every extent',
-    'glue: SeismicFileConverter.run and run_conversion_loop are under data-flow contracts (contracts/c_glue.py: which object reaches which function, in which order); CLI not under contract',
+    'glue: SeismicFileConverter.run and run_conversion_loop are under data-flow contracts (contracts/c_glue.py: which object reaches which function, in which order), as is the sgy2sgz command (click option parsing itself is click\'s)',
 ]
 TRUSTED = ['SeismicFile.open (assumed handle)', 'check_input_file_exists (assumed no effect)']
 
